@@ -2,6 +2,7 @@ SPECIFICATION GenSpec
 CONSTANTS
   MinN = 5
   MaxN = 5
+INVARIANT GKeysAreContributors
 INVARIANT GOnce
 INVARIANT GBasesFirst
 INVARIANT GReportIffCyclic
